@@ -135,34 +135,37 @@ def cli(argv=sys.argv, mode='output'):
     # Be lenient on non string arguments
     argv = [str(x) for x in argv]
 
-    args = parser.parse_args(argv[1:])
-
     ask_kthlist_graph = """
        Waiting for a directed acyclic graph on <stdin>,
        in 'kthlist' format.
 
        See: https://massimolauria.net/cnfgen/graphformats.html"""
 
-    with redirect_stdin(args.input), msg_prefix('c '):
+    # All messages are shielded as DIMACS comments
+    with msg_prefix('c '):
 
-        with msg_prefix('GRAPH INPUT: '):
-            interactive_msg(ask_kthlist_graph)
+        args = parser.parse_args(argv[1:])
 
-        G = readGraph(sys.stdin, "dag", file_format="kthlist")
+        with redirect_stdin(args.input):
 
-    F = PebblingFormula(G)
+            with msg_prefix('GRAPH INPUT: '):
+                interactive_msg(ask_kthlist_graph)
 
-    if hasattr(args, "transformation"):
-        F2 = args.transformation.transform_cnf(F, args)
-    else:
-        F2 = F
+            G = readGraph(sys.stdin, "dag", file_format="kthlist")
 
-    if mode == 'formula':
-        return F2
-    elif mode == 'string':
-        return F2.to_dimacs()
-    else:
-        F2.to_file(args.output, 'dimacs', export_header=args.verbose)
+        F = PebblingFormula(G)
+
+        if hasattr(args, "transformation"):
+            F2 = args.transformation.transform_cnf(F, args)
+        else:
+            F2 = F
+
+        if mode == 'formula':
+            return F2
+        elif mode == 'string':
+            return F2.to_dimacs()
+        else:
+            F2.to_file(args.output, 'dimacs', export_header=args.verbose)
 
 
 # Launcher
